@@ -54,7 +54,7 @@ __CPROVER_assigns(g_nresult);
    ((g_bounds.left >= (self)->rect_.left && g_bounds.right <= (self)->rect_.right && g_bounds.top >= (self)->rect_.top && g_bounds.bottom <= (self)->rect_.bottom) ? 1 : 2))
 #define RECT_EMPTY(self) (!((self)->rect_.left < (self)->rect_.right && (self)->rect_.top < (self)->rect_.bottom))
 
-//@extract file=CPP/Clipper2Lib/src/clipper.rectclip.cpp func=RectClip64::Execute self=RectClipS byval=paths rangefor=1 vec=edges_,results_,start_locs_ selfcalls=CheckEdges,TidyEdges
+//@extract file=CPP/Clipper2Lib/src/clipper.rectclip.cpp func=RectClip64::Execute ifndef=LINES self=RectClipS byval=paths rangefor=1 vec=edges_,results_,start_locs_ selfcalls=CheckEdges,TidyEdges
 //@presub /for \(OutPt2\*& op :\s*results_\)\s*\{[^{}]*\}/vf_collect_results(self);/
 //@presub /const Paths64 ?& ?paths/const PathsV& paths/
 //@presub /Paths64 result;/size_t result = 0;/
@@ -106,5 +106,45 @@ __CPROVER_loop_invariant(vf_i_edge > 6 ==> self->edges_.data[6].size == 0)
 __CPROVER_loop_invariant(vf_i_edge > 7 ==> self->edges_.data[7].size == 0)
 __CPROVER_decreases(8 - vf_i_edge)
 //@end
+#ifndef LINES
 void h_RC(void) { RectClipS* s; PathsV p; Execute(s, p); VF_CANARY(); }
+#endif
 //@run name=RectClip64.Execute entry=h_RC enforce=Execute replace=GetBounds_i,vf_emit_same,ExecuteInternal_,CheckEdges,TidyEdges,vf_collect_results loops=1 flags="--bounds-check --pointer-check --unsigned-overflow-check" timeout=300
+
+/* ---- RectClipLines64::Execute (C09) ---- */
+#define LFATE_SPEC(self) (!( VF_max((self)->rect_.left, g_bounds.left) <= VF_min((self)->rect_.right, g_bounds.right) && VF_max((self)->rect_.top, g_bounds.top) <= VF_min((self)->rect_.bottom, g_bounds.bottom)) ? 0 : 2)
+void ExecuteInternalL_(RectClipS* self, PathsV paths, size_t idx)
+__CPROVER_requires(LINES_SCRATCH_EMPTY(self) && idx < paths.size)
+__CPROVER_ensures(idx == g_p ==> g_fate == 2)
+__CPROVER_assigns(self->op_container_, self->results_, self->start_locs_; idx == g_p: g_fate);
+//@extract file=CPP/Clipper2Lib/src/clipper.rectclip.cpp func=RectClipLines64::Execute ifdef=LINES self=RectClipS byval=paths rangefor=1 vec=results_,start_locs_
+//@presub /for \(OutPt2\*& op :\s*results_\)\s*\{[^{}]*\}/vf_collect_results(self);/
+//@presub /const Paths64 ?& ?paths/const PathsV& paths/
+//@presub /Paths64 result;/size_t result = 0;/
+//@presub /op_container_ = std::deque<OutPt2>\(\);/op_container_.size = 0;/
+//@presub /Rect64 pathrec = GetBounds\(path\);/RectT pathrec = GetBounds(&path);/
+//@presub /ExecuteInternal\(path\)/ExecuteInternalL_(self, &path)/
+//@sub /^Paths64 Execute/size_t Execute/
+//@sub /self->rect_\.IsEmpty\(\)/Rect_IsEmpty(&self->rect_)/
+//@sub /self->rect_\.(Intersects)\(/Rect_\1(&self->rect_, /
+//@sub /GetBounds\(&\(paths\.data\[vf_i_path\]\)\)/GetBounds_i(paths, vf_i_path)/
+//@sub /ExecuteInternalL_\(self, &\(paths\.data\[vf_i_path\]\)\)/ExecuteInternalL_(self, paths, vf_i_path)/
+__CPROVER_requires(__CPROVER_is_fresh(self, sizeof(*self)) && paths.size < ((size_t)1 << 40) && __CPROVER_is_fresh(paths.data, paths.size * sizeof(VTok)))
+__CPROVER_requires(LINES_SCRATCH_EMPTY(self) && g_fate == 0 && !g_nresult && g_p < paths.size)
+__CPROVER_requires(g_bounds.left <= g_bounds.right && g_bounds.top <= g_bounds.bottom && self->rect_.left <= self->rect_.right && self->rect_.top <= self->rect_.bottom)
+/* C09: a polyline whose bounds miss the rectangle contributes nothing; every other one goes through ExecuteInternal exactly as given */
+__CPROVER_ensures(RECT_EMPTY(self) ==> (g_fate == 0 && !g_nresult))
+__CPROVER_ensures(!RECT_EMPTY(self) ==> g_fate == LFATE_SPEC(self))
+/* C12: the per-path scratch state is empty again */
+__CPROVER_ensures(LINES_SCRATCH_EMPTY(self))
+__CPROVER_assigns(self->op_container_, self->results_, self->start_locs_, g_fate, g_nresult)
+//@loop 1
+__CPROVER_assigns(vf_i_path, self->op_container_, self->results_, self->start_locs_, g_fate, g_nresult)
+__CPROVER_loop_invariant(vf_i_path <= paths.size && LINES_SCRATCH_EMPTY(self))
+__CPROVER_loop_invariant(g_fate == ((g_p < vf_i_path) ? LFATE_SPEC(self) : 0))
+__CPROVER_decreases(paths.size - vf_i_path)
+//@end
+#ifdef LINES
+void h_RCL(void) { RectClipS* s; PathsV p; Execute(s, p); VF_CANARY(); }
+#endif
+//@run name=RectClipLines64.Execute entry=h_RCL enforce=Execute replace=GetBounds_i,ExecuteInternalL_,vf_collect_results loops=1 defs=LINES flags="--bounds-check --pointer-check --unsigned-overflow-check" timeout=300 props=C09,C12,C10,C14
